@@ -59,6 +59,15 @@ def load_ref(ref):
     key = vlib.canon(ref)
     if key in _cache:
         return _cache[key]
+    if "ideal" in ref:
+        # an idealised, exactly symmetric conformer: RDKit's 2D depiction (regular polygons, equal bond lengths) taken as a planar
+        # 3D conformer - what idealised builders, depiction-derived inputs and symmetric crystal positions look like
+        mol = Chem.MolFromSmiles(ref["ideal"])
+        AllChem.Compute2DCoords(mol)
+        mol.GetConformer().Set3D(True)
+        mol.SetProp("_Name", "ideal")
+        _cache[key] = mol
+        return mol
     if "umbrella" in ref:
         # synthetic conformer of a symmetric AX_k centre: k identical neighbours on a cone whose mean vector has a chosen
         # length (the fingerprinter's mean-vector guard is at 0.1 A), slightly distorted so that it is in general position
@@ -129,6 +138,14 @@ def load_ref(ref):
                 mol.AddConformer(c, assignId=True)
     _cache[key] = mol
     return mol
+
+
+IDEAL_SMILES = ["c1ccccc1", "Oc1ccc2ccccc2c1", "C1CCCCC1", "Cc1ccccc1", "c1ccncc1", "Cc1ccc(C)cc1", "C1CCC1", "c1ccc2ccccc2c1", "CC(C)C",
+                "C1CCCC1", "O=C1C=CC(=O)C=C1", "Clc1cc(Cl)cc(Cl)c1"]
+
+
+def ideal_refs():
+    return [{"ideal": s} for s in IDEAL_SMILES]
 
 
 def all_refs():
